@@ -76,7 +76,10 @@ type advCase struct {
 	StallMC  int
 	StallFor time.Duration
 	// DeadlineLat: the interruption of the reader takes this long to take effect.
-	DeadlineLat   time.Duration
+	DeadlineLat time.Duration
+	// Dynamic: the configuration has deprecated options that count down during
+	// the scenario.
+	Dynamic       bool
 	StopHook      string
 	StopHookAfter time.Duration
 	StopHookDelay time.Duration
@@ -136,6 +139,15 @@ func vMsgOf(kind string, variant int) ndp.Message {
 func (c *advCase) doc() model.Doc {
 	d := vBaseDoc(c.Min, c.Max)
 	f := &d.Ifaces[0]
+	if c.Dynamic {
+		// content that changes while the advertiser runs: deprecated options whose
+		// deadlines fall inside the scenario (the epoch is 24 h before the bubble's
+		// clock starts).  Every RA, the final one included, carries what is left
+		// at the moment it is transmitted.
+		day := int64(24 * time.Hour)
+		f.Prefixes = append(f.Prefixes, model.PrefixSt{Prefix: model.MkCIDR("2001:db8:dead::/64"), Valid: model.D(day + int64(40*time.Second)), Preferred: model.D(day + int64(12*time.Second)), Deprecated: model.B(true)})
+		f.Routes = append(f.Routes, model.RouteSt{Prefix: model.MkCIDR("2001:db8:beef::/48"), Lifetime: model.D(day + int64(25*time.Second)), Deprecated: model.B(true)})
+	}
 	if c.UnicastOnly {
 		f.UnicastOnly = model.B(true)
 	}
@@ -453,7 +465,10 @@ func advContent(r *vlib.Run, c *advCase, res *advResult, exp *model.ExpIface) bo
 			if isFinal {
 				ex.DefaultLifetime = 0
 			}
-			want, _, _ := model.ExpectedRA(&ex, sys, fw, vEpoch, time.Now())
+			// the bubble's clock starts at 2000-01-01 and the trace after the
+			// scenario's seed offset: the instant this RA was handed to the socket
+			at := time.Date(2000, 1, 1, 0, 0, 0, 0, time.UTC).Add(c.Seed).Add(e.T)
+			want, _, _ := model.ExpectedRA(&ex, sys, fw, vEpoch, at)
 			if d := model.DiffRA(want, *e.RA); d != "" {
 				r.Violation(c.ID, "ra-content", fmt.Sprintf("RA transmitted at %v differs from the configuration (forwarding=%v): %s", e.T, fw, d), advDetail(c, res.ev))
 				return false
